@@ -58,6 +58,8 @@ class Gen:
             ids = [i for i in LIB if i not in (22, 23, 27, 28, 29)]
         i = r.choice(ids)
         k = r.choice(kinds)
+        if k == "z" and kinds is PROBE_KINDS and LIB.get(i) and LIB[i][5]:
+            k = "e"      # the "entropy data" of a multi-scan stream contains later DHT segments: overwriting them makes it abbreviated
         if k == "":
             return i, str(i)
         if k == "t":
@@ -359,7 +361,7 @@ def finding_signature(hist, res):
         parts_ = o.get("S", "").split()
         kk = [p for p in parts_ if p.startswith("k:")]
         dd = [p for p in parts_ if p.startswith("d:") and p != "d:-"]
-        if kk and kk[0] != "k:1,1":
+        if kk and "0" in kk[0][2:].split(","):
             return "marker-reader-methods-not-restored-after:" + (ops[oi + 1].split()[0] if oi + 1 < len(ops) else "?")
         if dd and (int(dd[0][2:].split(",")[7]) & 2):
             return "saved-markers-survive:" + (ops[oi + 1].split()[0] if oi + 1 < len(ops) else "?") + (":probe-differs" if res.get("verdict") == "DIFF" else "")
@@ -511,8 +513,8 @@ def run_hists(ctx, hists, exes, drv, flavours):
                     parts_ = o.get("S", "").split()
                     kk = [p for p in parts_ if p.startswith("k:")]
                     dd = [p for p in parts_ if p.startswith("d:") and p != "d:-"]
-                    if kk and kk[0] != "k:1,1":
-                        bad = "after call %d the marker reader's read_markers / reset_marker_reader methods are not the original ones (%s) (%s build)" % (oi + 1, kk[0], fl)
+                    if kk and "0" in kk[0][2:].split(","):
+                        bad = "after call %d read_markers / reset_marker_reader / start_input_pass are not the original methods (%s) (%s build)" % (oi + 1, kk[0], fl)
                         break
                     if dd and (int(dd[0][2:].split(",")[7]) & 2):
                         bad = "after call %d cinfo->marker_list still holds saved markers of the finished datastream (%s build)" % (oi + 1, fl)
@@ -929,7 +931,8 @@ def check_model(ctx, h, stream, res, m):
                 diffs.append("c.mem accounting: model image share %d+%d, impl drift %d" % (ms["m"][0], ms["m"][1], im["m"][0]))
             if ((ms["m"][2] + ms["m"][3]) != 0) != (im["m"][2] != 0):
                 diffs.append("d.mem accounting: model image share %d+%d, impl drift %d" % (ms["m"][2], ms["m"][3], im["m"][2]))
-        if ms.get("k") and im.get("k") and (ms["k"][0] == 1) != (im["k"][0] == 1 and im["k"][1] == 1):
+        if ms.get("k") and im.get("k") and ((ms["k"][0] == 1) != (im["k"][0] == 1 and im["k"][1] == 1) or
+                                            (len(ms["k"]) > 1 and len(im["k"]) > 2 and (ms["k"][1] == 1) != (im["k"][2] == 1))):
             diffs.append("d.marker reader methods: model original=%d impl %s" % (ms["k"][0], im["k"]))
         if ms["p"] != im["p"]:
             bad = [(PARAM_NAMES[j], ms["p"][j], im["p"][j]) for j in range(min(len(ms["p"]), len(im["p"]))) if ms["p"][j] != im["p"][j]]
